@@ -601,6 +601,20 @@ class GenericPlainRegistry(Generic[QuantityT, UnitT], metaclass=RegistryMeta):
 
         self._helper_adder(definition, self._units, self._units_casei)
 
+        if self._cache.dimensional_equivalents:
+            # The table of dimensional equivalents is filled when the cache is
+            # built: a unit defined afterwards joins it here.
+            try:
+                di = self._get_dimensionality(
+                    self.UnitsContainer({definition.name: 1})
+                )
+            except Exception:
+                # defined in terms of something that is not defined (yet)
+                return
+            self._cache.dimensional_equivalents.setdefault(di, set()).add(
+                definition.name
+            )
+
     def load_definitions(
         self, file: Iterable[str] | str | pathlib.Path, is_resource: bool = False
     ):
